@@ -135,6 +135,20 @@ def run_cases(inp):
     traces = []
     table = inp["table"]
     cases, types = table["cases"], table["types"]
+    from autobahn.wamp import role as _role
+    import inspect as _inspect
+    expanded = []
+    for c in cases:
+        if c["what"] != "feature":
+            expanded.append(c)
+            continue
+        roles = ("subscriber", "publisher", "caller", "callee") if c["t"] == "hello" else ("broker", "dealer")
+        for r in roles:
+            for feat in _inspect.signature(_role.ROLE_NAME_TO_CLASS[r].__init__).parameters:
+                if feat in ("self", "kwargs"):
+                    continue
+                expanded.append(dict(c, key="%s.%s" % (r, feat)))
+    cases = expanded
     for idx in range(inp["shard"], len(cases), inp["nshards"]):
         c = cases[idx]
         t = c["t"]
@@ -155,6 +169,13 @@ def run_cases(inp):
             d[c["key"]] = v
             raw[c["i"]] = d
             check = ("key", c["i"], c["key"], v)
+        elif c["what"] == "feature":
+            r, feat = c["key"].split(".")
+            v = concretise(c["c"])
+            d = copy.deepcopy(raw[2])
+            d["roles"] = {r: {"features": {feat: v}}}
+            raw[2] = d
+            check = ("feature", r, feat, v)
         elif c["what"] == "len":
             n = c["i"]
             if n < len(raw):
@@ -173,6 +194,9 @@ def run_cases(inp):
                 idem = o2 == "Message" and norm(m2.marshal()) == norm(out)
                 if check is None:
                     preserved = all(norm(out[i]) == norm(raw[i]) for i in range(min(len(raw), len(out)))) if c["what"] == "base" else True
+                elif check[0] == "feature":
+                    f = out[2].get("roles", {}).get(check[1], {}).get("features", {})
+                    preserved = f.get(check[2]) == check[3] or (check[3] in (False, None) and check[2] not in f)
                 elif check[0] == "pos":
                     i = check[1]
                     preserved = i < len(out) and norm(out[i]) == norm(check[2]) or (check[2] in ([], {}, None) and i >= len(out)) \
@@ -295,6 +319,19 @@ def build_variants(t, ty, rng, thorough):
     for sel in subsets:
         # subscribe/register with match: keep uri compatible
         out.append(with_opts(sel, rng.choice(IDS[1:] if t in ("unsubscribed", "unregistered") else IDS), rng.choice(PAYLOADS)))
+    if t in ("subscribe", "register"):
+        for match, uris in (("wildcard", ["com.myapp..create", "com..proc", ".x.y", "com.myapp.x"]), ("prefix", ["com.myapp", "com.myapp.topic"]),
+                            ("exact", ["com.myapp.topic1"])):
+            for u in uris:
+                raw = copy.deepcopy(base)
+                raw[2] = {"match": match}
+                raw[3] = u
+                out.append(raw)
+                if t == "register":
+                    for inv in ("single", "roundrobin", "random", "first", "last"):
+                        r2 = copy.deepcopy(raw)
+                        r2[2]["invoke"] = inv
+                        out.append(r2)
     for idv in IDS:
         if idv == 0 and t in ("unsubscribed", "unregistered"):
             continue                  # request 0 = revoked by the router, needs the id detail (covered by the C08 cases)
@@ -390,8 +427,8 @@ def covers(raw, out):
                         return False
                     continue          # role feature dicts are expanded with defaults by the library
                 if k not in out[i]:
-                    if x in (False, "", [], {}, None):
-                        continue
+                    if x in (False, "", [], {}, None) or (k, x) in (("match", "exact"), ("invoke", "single")):
+                        continue          # default values may be omitted by marshal()
                     return False
                 if out[i][k] != x:
                     return False
